@@ -9,6 +9,8 @@ package main
 import (
 	"bufio"
 	"fmt"
+	"io"
+	"log"
 	"os"
 	"strconv"
 	"strings"
@@ -46,6 +48,7 @@ var generators = map[string]func(r *RNG, n int, op string, emit func(string)){}
 func init() { generators["codec"] = genCodec }
 
 func main() {
+	log.SetOutput(io.Discard) // the library logs recovered panics and accept errors
 	if len(os.Args) < 2 {
 		fmt.Fprintln(os.Stderr, "usage: harness gen|run|both ...")
 		os.Exit(2)
